@@ -94,6 +94,13 @@ pub fn build(f: &Family, pad: Option<usize>) -> dnspkt::DNSPkt {
 /// Oracle shared with the end-to-end part: `wire` is what was emitted under `limit`, `full` is the
 /// complete message in reference form (OPT last in additional if any).
 pub fn judge_limited(wire: &[u8], limit: usize, full: &Msg, full_size: usize) -> Result<&'static str, (String, String)> {
+    judge_limited2(wire, limit, limit, full, full_size)
+}
+
+/// `limit` bounds the size; `fits_limit` (<= limit) is the size up to which the message must be
+/// complete.  They differ for UDP clients advertising more than a datagram can carry: the reply
+/// may not exceed what was advertised, but it need only be complete up to 65507 octets.
+pub fn judge_limited2(wire: &[u8], limit: usize, fits_limit: usize, full: &Msg, full_size: usize) -> Result<&'static str, (String, String)> {
     if wire.len() > limit {
         return Err(("over-limit".into(), format!("{} octets emitted under a limit of {}", wire.len(), limit)));
     }
@@ -115,8 +122,8 @@ pub fn judge_limited(wire: &[u8], limit: usize, full: &Msg, full_size: usize) ->
     if missing == 0 && !opt_missing && m.tc() && !full.tc() {
         return Err(("tc-set-but-complete".into(), "nothing omitted but TC is set".into()));
     }
-    if full_size <= limit && (missing > 0 || opt_missing) {
-        return Err(("fits-but-truncated".into(), format!("full message is {full_size} octets <= limit {limit} but {missing} record(s) were omitted")));
+    if full_size <= fits_limit && (missing > 0 || opt_missing) {
+        return Err(("fits-but-truncated".into(), format!("full message is {full_size} octets <= limit {fits_limit} but {missing} record(s) were omitted")));
     }
     Ok(if missing > 0 { "truncated" } else if opt_missing { "opt-dropped" } else { "complete" })
 }
@@ -125,14 +132,15 @@ pub fn one(f: &Family, limit: usize, delta: i64) -> (String, Option<Violation>) 
     let case = json!({"engine":"c04","part":"function","family":f.name,"limit":limit,"delta":delta});
     let base = build(f, Some(0));
     let r = panics::catch(|| {
-        let base_len = base.serialise().len() as i64;
+        let base_len = base.serialise_with_size(1 << 20).len() as i64;
         let target = limit as i64 + delta;
         let padlen = target - base_len;
-        if !(0..=65000).contains(&padlen) {
+        if !(0..=65300).contains(&padlen) {
             return None;
         }
         let p = build(f, Some(padlen as usize));
-        let full = p.serialise();
+        // the unlimited encoding (serialise() itself stops at 65535 and would under-report)
+        let full = p.serialise_with_size(1 << 20);
         Some((p.serialise_with_size(limit), full, p))
     });
     match r {
@@ -255,9 +263,12 @@ fn upstream_reply(oq: &Msg, pad: usize, shape: usize) -> Msg {
 
 /// One exchange where the scripted upstream follows the protocol for large answers
 /// (TC over UDP when the reply exceeds the forwarder's advertised 4096, then the full reply over TCP).
-fn big_exchange(rig: &mut Rig, qb: &[u8], transport: &str, pad: usize, shape: usize) -> Result<(Option<Vec<u8>>, Msg, usize), String> {
+pub fn big_exchange(rig: &mut Rig, qb: &[u8], transport: &str, pad: usize, shape: usize) -> Result<(Option<Vec<u8>>, Msg, usize), String> {
+    big_exchange_from(rig, qb, transport, pad, shape, "::1".parse().unwrap())
+}
+
+pub fn big_exchange_from(rig: &mut Rig, qb: &[u8], transport: &str, pad: usize, shape: usize, cip: std::net::IpAddr) -> Result<(Option<Vec<u8>>, Msg, usize), String> {
     let dst = rig.listen_addr(0);
-    let cip: std::net::IpAddr = "::1".parse().unwrap();
     let mut uc = None;
     let mut tc = None;
     if transport == "tcp" {
@@ -302,7 +313,7 @@ fn big_exchange(rig: &mut Rig, qb: &[u8], transport: &str, pad: usize, shape: us
                 let full = upstream_reply(&oq, pad, shape);
                 let fb = rd::encode(&full, true);
                 if fb.len() > 65535 {
-                    return Err("harness: upstream reply over 65535".into());
+                    return Err(format!("harness: upstream reply over 65535: {} octets for pad {pad} shape {shape}", fb.len()));
                 }
                 served = Some((full, fb.len()));
                 rig.upstreams[0].conns[ci].send_frame(&fb)?;
@@ -372,7 +383,7 @@ pub fn run_case(case: &Value) -> CaseResult {
         let mut pads: Vec<i64> = vec![];
         let base_pad_for = |target: i64| -> i64 { 10 + (target - (cal.2 as i64 + offset)) };
         let deltas: Vec<i64> = if thorough { (-20..=20).collect() } else { (-6..=8).collect() };
-        if transport == "udp" {
+        if transport == "udp" && (shape == 0 || limit < 0x3f00) {
             for d in &deltas {
                 pads.push(base_pad_for(limit as i64 + d));
             }
@@ -380,14 +391,19 @@ pub fn run_case(case: &Value) -> CaseResult {
         for big in [2048i64, 4000, 4200, 17000, 60000, 65000, 65400] {
             pads.push(base_pad_for(big));
         }
-        if transport == "tcp" {
+        // (shape 0 only: there every name is a pointer to the question, so sizes are linear in the pad
+        // on both sides; in the other shapes names written past offset 0x3fff stop being
+        // compression targets and the size estimate would be off by a few octets)
+        if transport == "tcp" && shape == 0 {
             // around 65535 of the forwarder's own encoding
-            for d in [-3i64, -2, -1, 0, 1, 2, 12, 40] {
+            for d in [-12i64, -11, -10, -4, -3, -2, -1, 0, 1, 2, 3, 4, 11, 12, 40] {
                 pads.push(base_pad_for(65535 + d));
             }
         }
         for pad in pads {
-            if !(0..=65000).contains(&pad) {
+            // the upstream's own message must stay a legal DNS message (<= 65535 octets; a few octets of
+            // margin because later query names have more digits than the calibration's)
+            if pad < 0 || cal.2 as i64 + (pad - 10) > 65529 {
                 continue;
             }
             n += 1;
@@ -399,8 +415,10 @@ pub fn run_case(case: &Value) -> CaseResult {
                     break;
                 }
                 Ok((None, _, _, _)) => {
-                    res.violations.push(Violation::new("no-reply", format!("no reply ({transport}, advertised {edns}, pad {pad})"), sub).sig("part", "e2e").sig("transport", transport));
-                    classes.insert("no-reply".into());
+                    // C04 speaks of the responses the server emits; a missing response is C07's
+                    // subject (its big-answer family asks these very sizes) and only a class here
+                    let _ = sub;
+                    classes.insert(format!("{transport}:no-reply"));
                 }
                 Ok((Some(wire), up, up_len, qm)) => {
                     // the full message as the forwarder would send it unlimited
@@ -409,7 +427,9 @@ pub fn run_case(case: &Value) -> CaseResult {
                     full.question = qm.question.clone();
                     full.additional.push(rd::opt_rr(4096, 0, 0, false, vec![]));
                     let full_size = (up_len as i64 + offset) as usize;
-                    match judge_limited(&wire, limit, &full, full_size) {
+                    // a UDP datagram carries at most 65507 octets (IPv4): above that a reply need not be complete
+                    let fits_limit = if transport == "udp" { limit.min(65507) } else { limit };
+                    match judge_limited2(&wire, limit, fits_limit, &full, full_size) {
                         Ok(c) => {
                             classes.insert(format!("{transport}:{c}:{}", if full_size <= limit { "fits" } else { "over" }));
                         }
